@@ -403,6 +403,23 @@ func observeIndex(t *tree.Tree) (string, string) {
 	return rk, b.String()
 }
 
+// observeDepths: Node.Depth() of every node in alpha pre-order (-1 = "has not been computed").
+func observeDepths(t *tree.Tree) string {
+	var b strings.Builder
+	one := func(n *tree.Node) {
+		d, err := n.Depth()
+		if err != nil {
+			d = -1
+		}
+		fmt.Fprintf(&b, "%d,", d)
+	}
+	one(t.Root())
+	for _, ea := range walkEdges(t) {
+		one(ea.below)
+	}
+	return b.String()
+}
+
 // ownRecompute: the last step of the history is an edit that recomputes the indexes by itself, it
 // succeeded, and the tip index it relies on was current (computed by an earlier step, no rename / graft
 // since).  Then what the tree says straight after it — before any explicit ReinitIndexes — is judged too.
@@ -461,7 +478,7 @@ func doIndex(c *core.Ctx, n *core.N, script []string) {
 		// the enumerations / indexes computed from it are judged against that shape.  Otherwise the driver
 		// decides from the step that broke it: a step that returned an error is C03's business, a step that
 		// reported success is judged here.
-		c.Emit("C04.index", n.Dump(), core.StrList(script), "malformed", core.Escape(strings.Join(wf.Problems, "; ")), core.StrList(log), strconv.Itoa(firstBad), "", "", "", "")
+		c.Emit("C04.index", n.Dump(), core.StrList(script), "malformed", core.Escape(strings.Join(wf.Problems, "; ")), core.StrList(log), strconv.Itoa(firstBad), "", "", "", "", "", "")
 		return
 	}
 	rk0, obs0 := "", ""
@@ -470,6 +487,7 @@ func doIndex(c *core.Ctx, n *core.N, script []string) {
 			rk0, obs0 = "PANIC,", "panic"
 		}
 	}
+	depths0 := observeDepths(t) // what the nodes carry before the final recompute (ComputeDepths fills only unset depths of an unrooted tree)
 	var rerr error
 	// a script ending with "internal" (tip set and names untouched since the last ReinitIndexes):
 	// the indexes are recomputed with ReinitInternalIndexes, which keeps the tip index
@@ -481,11 +499,11 @@ func doIndex(c *core.Ctx, n *core.N, script []string) {
 			rerr = t.ReinitIndexes()
 		}
 	}); p {
-		c.Emit("C04.index", n.Dump(), core.StrList(script), "panic:"+core.Escape(msg), after.Dump(), "", "", "", "", rk0, obs0)
+		c.Emit("C04.index", n.Dump(), core.StrList(script), "panic:"+core.Escape(msg), after.Dump(), "", "", "", "", rk0, obs0, "", "")
 		return
 	}
 	if rerr != nil {
-		c.Emit("C04.index", n.Dump(), core.StrList(script), "err", after.Dump(), "", "", "", "", rk0, obs0)
+		c.Emit("C04.index", n.Dump(), core.StrList(script), "err", after.Dump(), "", "", "", "", rk0, obs0, "", "")
 		return
 	}
 	rk, obsStr := observeIndex(t)
@@ -513,7 +531,7 @@ func doIndex(c *core.Ctx, n *core.N, script []string) {
 	if a2, wf2 := core.Alpha(t); wf2.OK() || orientationOnly(wf2) {
 		after2 = a2.Dump()
 	}
-	c.Emit("C04.index", n.Dump(), core.StrList(script), "ok", after.Dump(), rk, obsStr, enum, after2, rk0, obs0)
+	c.Emit("C04.index", n.Dump(), core.StrList(script), "ok", after.Dump(), rk, obsStr, enum, after2, rk0, obs0, depths0, observeDepths(t))
 }
 
 // orientationOnly: every problem of the heap is a branch not oriented away from the root.
